@@ -249,6 +249,14 @@ def _inline_async(blocks, locals_, vars_, i, t, cb, co):
             blocks[pj]['st'].append({'ln': t.get('ln'), 'lhs': {'l': dl + 2}, 'rv': {'k': 'use', 'op': copy.deepcopy(pt['args'][1])}, 'inl': cb.nid})
         blocks[pj]['term'] = {'ln': pt.get('ln'), 'k': 'goto', 't': db, 'inl': cb.nid, 'inl_call': t}
         added.extend(range(db, db + len(new_blocks)))
+        # the inlined body hands back `Poll::Ready(value)`: the `Pending => yield` arm of the await is dead here (the helper's own awaits
+        # keep their yields)
+        if cont is not None and pdest is not None and not pdest.get('p'):
+            ct_ = blocks[cont]['term']
+            if ct_ and ct_['k'] == 'switch' and strip_generics(ct_.get('enum', '')) == 'core::task::poll::Poll' and ct_.get('src') == {'l': pdest['l']}:
+                ready = [tg for v_, tg in ct_['ts'] if v_ == 'Ready']
+                if ready:
+                    blocks[cont]['term'] = {'ln': ct_.get('ln'), 'k': 'goto', 't': ready[0], 'inl': cb.nid}
     # the call that only built the future
     blocks[i]['st'].append({'ln': t.get('ln'), 'lhs': copy.deepcopy(dest), 'inl': cb.nid,
                             'rv': {'k': 'agg', 'ak': 'coroutine', 'def': cdef, 'ops': [copy.deepcopy(t['args'][k]) for k in ops]}})
@@ -256,7 +264,133 @@ def _inline_async(blocks, locals_, vars_, i, t, cb, co):
     return added
 
 
-def inlined(fb, body, keep=(), also=None, depth=4, crate=None):
+# ---- closures handed to "call it at most once, right now" combinators ------------------------------------------------------------
+#   dest = Option::map(o, f)          switch o { Some(x) => dest = Some(f(x)), None => dest = None }
+#   dest = Result::map_err(r, f)      switch r { Ok(x) => dest = Ok(x), Err(e) => dest = Err(f(e)) }
+#   dest = bool::then(c, f)           if c { dest = Some(f()) } else { dest = None }            (and a few more of the same family)
+OPT_ADT, RES_ADT = 'core::option::Option', 'core::result::Result'
+COMBINATORS = {
+    'core::option::Option::map':            (OPT_ADT, 'Some', 'None', ('wrap', OPT_ADT, 'Some'), ('pass',)),
+    'core::option::Option::and_then':       (OPT_ADT, 'Some', 'None', ('raw',), ('pass',)),
+    'core::option::Option::unwrap_or_else': (OPT_ADT, 'None', 'Some', ('raw',), ('payload',)),
+    'core::option::Option::ok_or_else':     (OPT_ADT, 'None', 'Some', ('wrap', RES_ADT, 'Err'), ('rewrap', RES_ADT, 'Ok')),
+    'core::option::Option::or_else':        (OPT_ADT, 'None', 'Some', ('raw',), ('pass',)),
+    'core::result::Result::map':            (RES_ADT, 'Ok', 'Err', ('wrap', RES_ADT, 'Ok'), ('pass',)),
+    'core::result::Result::map_err':        (RES_ADT, 'Err', 'Ok', ('wrap', RES_ADT, 'Err'), ('pass',)),
+    'core::result::Result::and_then':       (RES_ADT, 'Ok', 'Err', ('raw',), ('pass',)),
+    'core::result::Result::unwrap_or_else': (RES_ADT, 'Err', 'Ok', ('raw',), ('payload',)),
+    'core::result::Result::or_else':        (RES_ADT, 'Err', 'Ok', ('raw',), ('pass',)),
+}
+BOOL_THEN = 'core::bool::{impl bool}::then'
+
+
+def _closure_of(fb, body, blocks, local):
+    """(closure body, operands of the closure aggregate) for a local that holds a closure built in this body"""
+    hit = None
+    for blk in blocks:
+        for st in blk['st']:
+            if 'lhs' in st and st['lhs'] == {'l': local} and st['rv']['k'] == 'agg' and st['rv'].get('ak') == 'closure':
+                if hit is not None:
+                    return None
+                hit = st['rv']
+    if hit is None or not hit.get('def'):
+        return None
+    ct = _ctype(fb, body.crate)
+    for x in fb.bodies(body.crate, ct):
+        if x.id == hit['def'] and not x.is_coroutine:
+            return x
+    return None
+
+
+def _inline_combinator(fb, body, blocks, locals_, vars_, i, t, name):
+    """-> new block indices (empty if the site is left alone)"""
+    is_then = name == BOOL_THEN
+    spec = COMBINATORS.get(name)
+    if (spec is None and not is_then) or len(t['args']) != 2 or t.get('dest') is None or t['dest'].get('p') or 't' not in t:
+        return []
+    recv, clo = _whole_local(t['args'][0]), _whole_local(t['args'][1])
+    if recv is None or clo is None:
+        return []
+    cb = _closure_of(fb, body, blocks, clo)
+    if cb is None:
+        return []
+    n_params = cb.raw['argc'] - 1
+    if n_params != (0 if is_then or spec[1] == 'None' else 1):
+        return []
+    dest, cont = t['dest'], t['t']
+    ln = t.get('ln')
+    dl, db = len(locals_), len(blocks)
+    locals_.extend(cb.raw['locals'])
+    for v in copy.deepcopy(cb.raw['vars']):
+        if 'pl' in v:
+            _shift_place(v['pl'], dl)
+        vars_.append(v)
+    new_blocks = copy.deepcopy(cb.raw['blocks'])
+    _own_promoted(new_blocks, cb.id)
+    adt = OPT_ADT if is_then else spec[0]
+    wrap = ('wrap', OPT_ADT, 'Some') if is_then else spec[3]
+    for nb in new_blocks:
+        _shift(nb['st'], dl)
+        nt = nb['term']
+        if nt:
+            _shift(nt, dl)
+            _shift_blocks(nt, db)
+            if nt['k'] == 'return':
+                if wrap[0] == 'wrap':
+                    nb['st'].append({'ln': ln, 'lhs': copy.deepcopy(dest), 'inl': cb.nid,
+                                     'rv': {'k': 'agg', 'ak': 'adt', 'adt': wrap[1], 'var': wrap[2], 'fields': ['0'], 'ops': [{'mv': {'l': dl}}]}})
+                else:
+                    nb['st'].append({'ln': ln, 'lhs': copy.deepcopy(dest), 'inl': cb.nid, 'rv': {'k': 'use', 'op': {'mv': {'l': dl}}}})
+                nb['term'] = {'ln': ln, 'k': 'goto', 't': cont, 'inl': cb.nid}
+            elif nt['k'] == 'resume' and t.get('u') is not None:
+                nb['term'] = {'ln': ln, 'k': 'goto', 't': t['u']}
+        blocks.append(nb)
+    # the block that enters the closure: bind its environment and its argument
+    by_ref = cb.raw['locals'][1].startswith('&')
+    enter = {'st': [{'ln': ln, 'lhs': {'l': dl + 1}, 'inl': cb.nid,
+                     'rv': ({'k': 'ref', 'bk': 'shared', 'pl': {'l': clo}} if by_ref else {'k': 'use', 'op': {'mv': {'l': clo}}})}],
+             'term': {'ln': ln, 'k': 'goto', 't': db, 'inl': cb.nid}}
+    if not is_then and spec[1] != 'None':
+        enter['st'].append({'ln': ln, 'lhs': {'l': dl + 2}, 'inl': cb.nid,
+                            'rv': {'k': 'use', 'op': {'mv': {'l': recv, 'p': ['d:' + spec[1], 'f:0'], 'e': [adt]}}}})
+    b_enter = len(blocks)
+    blocks.append(enter)
+    # the block for the other variant
+    other = {'st': [], 'term': {'ln': ln, 'k': 'goto', 't': cont, 'inl': cb.nid}}
+    if is_then:
+        other['st'].append({'ln': ln, 'lhs': copy.deepcopy(dest), 'rv': {'k': 'agg', 'ak': 'adt', 'adt': OPT_ADT, 'var': 'None', 'fields': [], 'ops': []}})
+    else:
+        how, ovar = spec[4], spec[2]
+        if how[0] == 'pass':
+            if ovar == 'None':
+                other['st'].append({'ln': ln, 'lhs': copy.deepcopy(dest), 'rv': {'k': 'agg', 'ak': 'adt', 'adt': wrap[1] if wrap[0] == 'wrap' else adt, 'var': 'None', 'fields': [], 'ops': []}})
+            else:
+                tgt_adt = wrap[1] if wrap[0] == 'wrap' else adt
+                other['st'].append({'ln': ln, 'lhs': copy.deepcopy(dest),
+                                    'rv': {'k': 'agg', 'ak': 'adt', 'adt': tgt_adt, 'var': ovar, 'fields': ['0'],
+                                           'ops': [{'mv': {'l': recv, 'p': ['d:' + ovar, 'f:0'], 'e': [adt]}}]}})
+        elif how[0] == 'payload':
+            other['st'].append({'ln': ln, 'lhs': copy.deepcopy(dest), 'rv': {'k': 'use', 'op': {'mv': {'l': recv, 'p': ['d:' + ovar, 'f:0'], 'e': [adt]}}}})
+        elif how[0] == 'rewrap':
+            other['st'].append({'ln': ln, 'lhs': copy.deepcopy(dest),
+                                'rv': {'k': 'agg', 'ak': 'adt', 'adt': how[1], 'var': how[2], 'fields': ['0'],
+                                       'ops': [{'mv': {'l': recv, 'p': ['d:' + ovar, 'f:0'], 'e': [adt]}}]}})
+    b_other = len(blocks)
+    blocks.append(other)
+    # the call site becomes the test
+    if is_then:
+        blocks[i]['term'] = {'ln': ln, 'k': 'switch', 'd': copy.deepcopy(t['args'][0]), 'dty': 'bool', 'ts': [['0', b_other]], 'else': b_enter,
+                             'inl': cb.nid, 'inl_call': t}
+    else:
+        dloc = len(locals_)
+        locals_.append('isize')
+        blocks[i]['st'].append({'ln': ln, 'lhs': {'l': dloc}, 'rv': {'k': 'discr', 'pl': {'l': recv}, 'ty': adt}, 'inl': cb.nid})
+        blocks[i]['term'] = {'ln': ln, 'k': 'switch', 'd': {'mv': {'l': dloc}}, 'dty': 'isize', 'enum': adt, 'src': {'l': recv},
+                             'ts': [[spec[1], b_enter]], 'else': b_other, 'rest': [spec[2]], 'inl': cb.nid, 'inl_call': t}
+    return list(range(db, len(blocks)))
+
+
+def inlined(fb, body, keep=(), also=None, depth=4, crate=None, closures=True):
     """-> Body (a new one if anything was inlined, else `body` itself)"""
     crate = crate or body.crate
     keep = set(keep)
@@ -272,6 +406,17 @@ def inlined(fb, body, keep=(), also=None, depth=4, crate=None):
         if not t or t['k'] != 'call' or d >= depth:
             continue
         name = callee_resolved(t) or callee(t)
+        if closures and name and (callee(t) in COMBINATORS or callee(t) == BOOL_THEN):
+            if raw is None:
+                raw = dict(body.raw)
+                raw['blocks'] = blocks = copy.deepcopy(body.raw['blocks'])
+                raw['locals'] = locals_ = list(body.raw['locals'])
+                raw['vars'] = copy.deepcopy(body.raw['vars'])
+                t = blocks[i]['term']
+            added = _inline_combinator(fb, body, blocks, locals_, raw['vars'], i, t, callee(t))
+            if added:
+                work.extend((j, d + 1, chain) for j in added)
+            continue
         if not name or not name.startswith(crate + '::') and not name.startswith('<' + crate + '::'):
             continue
         if name in chain:
